@@ -23,7 +23,7 @@ var (
 	c08Bound  = flag.Int("bound", 2, "preemption bound of the exhaustive part")
 	c08Cap    = flag.Int("cap", 300, "cap on explored schedules per request set")
 	c08Random = flag.Int("random", 40, "random schedules per request set beyond the bound")
-	c08Kinds  = flag.String("kinds", "dup,inbox,like,follow,add,outbox,forward2,add2,likebad", "request-set kinds")
+	c08Kinds  = flag.String("kinds", "dup,inbox,like,follow,add,outbox,forward2,add2,remove2,likebad", "request-set kinds")
 )
 
 type abortSignal struct{}
@@ -422,8 +422,11 @@ func genReqSet(r *rng, kind string, k int) reqSet {
 			}
 			rs.reqs = append(rs.reqs, outboxScenario("conc:outbox", w, cfg, b))
 		}
-	case "add2": // Adds / Removes naming two owned collections as targets, in opposite orders
-		ty := pick(r, []string{"Add", "Add", "Remove"})
+	case "add2", "remove2": // Adds / Removes naming two owned collections as targets, in opposite orders
+		ty := "Add"
+		if kind == "remove2" {
+			ty = "Remove"
+		}
 		for i := 0; i < 2; i++ {
 			a := inboxAct(ty, i, pick(r, remoteActors[:3]))
 			a["object"] = fmt.Sprintf("%s/things/c%d-%d", remote, k, i)
@@ -435,7 +438,7 @@ func genReqSet(r *rng, kind string, k int) reqSet {
 				cols = append(cols, cols[0])
 			}
 			a["target"] = cols
-			rs.reqs = append(rs.reqs, inboxScenario("conc:add2", w, cfg, a))
+			rs.reqs = append(rs.reqs, inboxScenario("conc:"+kind, w, cfg, a))
 		}
 	case "likebad": // a client Like that is rejected (embedded object without id), then well-formed ones on the same outbox
 		for i := 0; i < n; i++ {
